@@ -685,7 +685,14 @@ fn queue_main(plan: &Value, slot: Arc<Mutex<Option<QueueRun>>>) {
                 }
                 "forget" => {
                     hist.log(K::Forget);
-                    j.forget();
+                    // "forgotten": through the method made for it, or as any value can be - its destructor never runs
+                    match mix(sh.run_key, 0xf0e6e7) % 3 {
+                        0 => std::mem::forget(j),
+                        1 => {
+                            let _ = Box::leak(Box::new(j));
+                        }
+                        _ => j.forget(),
+                    }
                 }
                 _ => {
                     *join = Some(j);
